@@ -96,8 +96,13 @@ def validate(programs_events, module, nproc=16, tag=None, timeout=3600, extra_fi
         v.transitions += r.generated
         done = list(_extract(r.out, 'QVDONE'))
         if not r.ok or not done:
-            v.errors.append('TLC chunk %d: rc=%s violated=%s error=%s\n%s' % (
-                k, r.rc, r.violated, r.error, r.out[-1500:]))
+            import re
+            pos = [int(x) for x in re.findall(r'^i = (\d+)', r.out, re.M)]
+            at = ''
+            if pos and max(pos) <= len(chunks[k]):
+                at = ' while judging event %d of the chunk: %s' % (max(pos), json.dumps(chunks[k][max(pos) - 1])[:600])
+            v.errors.append('TLC chunk %d: rc=%s violated=%s error=%s%s\n%s' % (
+                k, r.rc, r.violated, r.error, at, r.out[-1500:]))
             continue
         v.consumed += done[0][1]
         if done[0][1] != done[0][2]:
